@@ -270,7 +270,7 @@ TIERS = {
     'C07': (1600, 60000, [0, 1, 2, 3]),
     'C08': (1600, 60000, [0, 1, 2, 3]),
     'C09': (1000, 40000, [0, 1, 2, 3]),
-    'C10': (1000, 40000, [0, 1, 2, 3]),
+    'C10': (400, 12000, [0, 1, 2, 3]),
     'C20': (3000, 400000, [0, 1]),
     'C18': (2000, 100000, [0, 1]),
     'C17': (400, 12000, [0, 1]),
